@@ -3,6 +3,7 @@
 package sx
 
 import (
+	"encoding/json"
 	"fmt"
 	"sort"
 	"strings"
@@ -25,6 +26,9 @@ type Config struct {
 	Case func(schedule []int) interface{}
 	// ShardTop distributes top-level branches over the worker shards.
 	ShardTop bool
+	// NoteDeath: record every schedule prefix in the side file before it runs, so that a schedule
+	// that kills the process is known to the driver (the case carries "__key").
+	NoteDeath bool
 }
 
 // Result of one exploration.
@@ -41,9 +45,15 @@ func Explore(c *vk.Ctx, cfg Config) (Result, bool) {
 	res := Result{Outcomes: map[string]int64{}}
 	e := &sched.Explorer{Bound: cfg.Bound, Cache: cfg.Cache}
 	if cfg.ShardTop {
-		e.Shard, e.NShards = c.Shard, c.NShards
+		e.Shard, e.NShards, e.ShardDepth = c.Shard, c.NShards, 1
 	}
 	e.Stop = func() bool { return c.Expired() }
+	if cfg.NoteDeath {
+		e.BeforeExec = func(prefix []int) {
+			b, _ := json.Marshal(map[string]interface{}{"__key": cfg.Key, "case": cfg.Case(prefix)})
+			c.Note(string(b))
+		}
+	}
 	guard := 0
 	e.OnExec = func(x *sched.Execution, failure string) bool {
 		out := ""
@@ -87,6 +97,9 @@ func Explore(c *vk.Ctx, cfg Config) (Result, bool) {
 	c.Res.Transitions += e.Stats.Points
 	c.Res.Nontrivial += e.Stats.WithPreemption
 	c.Res.States += int64(e.Stats.DistinctStates)
+	if !cfg.Cache {
+		c.Res.States += e.Stats.Executions // stateless search: one distinct schedule per execution
+	}
 	if !e.Stats.Complete && res.Failure == "" {
 		c.Res.Exhaustive = false
 	}
